@@ -1,4 +1,5 @@
 import Asts.Spec.Sync
+import Asts.Model.World
 namespace Asts
 
 /-! Monitor clauses that used to live only inside the drivers (`Driver/Reconcile.lean` `monitorRc`, `Driver/Sync.lean`
@@ -72,5 +73,15 @@ def C12completionSync (i : SyncIn) (m : SyncOut) (o : SyncObs) (creates : List S
     (match o.status with
      | some st => C12complete m.cur m.upd (m.claimed.map (·.pod)) (podActs i o.log creates) st
      | none => true)
+
+/-- `C18.stable` — migration, over several reconciles: while a revision that records the current template sits on the name the
+    controller probes first (`h.nameOf i.template cc0`, whoever owns it — the built-in set's revision before the garbage
+    collector has orphaned it), no reconcile of a live set adds another revision recording that template: every revision
+    recording the template that a round leaves bears a name of the initial store -/
+def C18stable (h : Hashing) (i : SyncIn) (plan : List Fault) (rs : List RoundObs) : Bool :=
+  let cc0 : Int := i.collisionCount.getD 0
+  let held := i.store.any (fun r => r.name == h.nameOf i.template cc0 && r.data == i.template)
+  !held || i.paused || !i.selectorOk || i.view.deleting || !plan.isEmpty ||
+  rs.all (fun r => r.revs.all (fun d => d.data != i.template || i.store.any (fun q => q.name == d.name)))
 
 end Asts
